@@ -18,7 +18,7 @@ import (
 )
 
 var (
-	numRegex = regexp.MustCompile(`([0-9\.]+)`)
+	numRegex = regexp.MustCompile(`(-?[0-9\.]+)`)
 )
 
 // Query holds the query string and the query parser.
@@ -374,11 +374,17 @@ func match(attr string, op Operator, operand reflect.Value, events map[string][]
 		return false, nil
 	}
 
+	var firstErr error
 	for _, value := range values {
-		// return true if any value in the set of the event's values matches
+		// return true if any value in the set of the event's values matches;
+		// a value that cannot be converted to the operand's type does not match,
+		// and does not decide for the values next to it
 		match, err := matchValue(value, op, operand)
 		if err != nil {
-			return false, err
+			if firstErr == nil {
+				firstErr = err
+			}
+			continue
 		}
 
 		if match {
@@ -386,7 +392,7 @@ func match(attr string, op Operator, operand reflect.Value, events map[string][]
 		}
 	}
 
-	return false, nil
+	return false, firstErr
 }
 
 // matchValue will attempt to match a string value against an operator an
@@ -463,7 +469,21 @@ func matchValue(value string, op Operator, operand reflect.Value) (bool, error) 
 				return false, fmt.Errorf("failed to convert value %v from event attribute to float64: %w", filteredValue, err)
 			}
 
-			v = int64(v1)
+			// compare the fractional value itself, not its integer part
+			operandFloat64 := float64(operandInt)
+			switch op {
+			case OpLessEqual:
+				return v1 <= operandFloat64, nil
+			case OpGreaterEqual:
+				return v1 >= operandFloat64, nil
+			case OpLess:
+				return v1 < operandFloat64, nil
+			case OpGreater:
+				return v1 > operandFloat64, nil
+			case OpEqual:
+				return v1 == operandFloat64, nil
+			}
+			return false, nil
 		} else {
 			var err error
 			// try our best to convert value from tags to int64
